@@ -19,6 +19,7 @@ for d in sorted(glob.glob(os.path.join(V, "seeded", "*"))):
         r = json.load(open(rp))
         m["verdict"] = r.get("result")
         m["caught_by"] = ["%s %s" % (p, x) for p, xs in sorted(r.get("new_failing", {}).items()) for x in xs]
+        m["check_properties"] = sorted(r.get("new_failing", {}).keys())
     m.setdefault("expect_rules", [])
     json.dump(m, open(mp, "w"), indent=1)
     print(os.path.basename(d), m.get("verdict"), m.get("caught_by"))
